@@ -33,6 +33,7 @@ import (
 
 	"verif/harness/internal/engine"
 	"verif/harness/internal/ev"
+	"verif/harness/internal/loglevel"
 	"verif/harness/internal/vclock"
 )
 
@@ -670,6 +671,9 @@ func TestHistories(t *testing.T) {
 	maxEvents := 40
 	rapid.Check(t, func(rt *rapid.T) {
 		h := genHist(maxEvents).Draw(rt, "history")
+		level := loglevel.Gen().Draw(rt, "log level")
+		r.Class("log level " + level)
+		defer loglevel.Set(level)()
 		r.Case()
 		e, err := newEnv()
 		if err != nil {
